@@ -882,10 +882,10 @@ func (s *schemaBuilder) buildFromStruct(decl *entityDecl, st *types.Struct, sche
 			name = fld.Name()
 		}
 		if ignore {
+			// the field hides every promoted field of that name, whatever key each was encoded under
 			for seenTagName, seenFieldName := range seen {
 				if seenFieldName == fld.Name() {
 					delete(tgt.Properties, seenTagName)
-					break
 				}
 			}
 			continue
